@@ -206,14 +206,24 @@ def gen_time_history(rng):
     return ops
 
 
+EXPECTED_DOMAINS = []
+
+
 def run_time_history(ops, m):
     """returns per object (reported domain in ms, reported range, ticks(m) in ms) after the history"""
     from labella.scale import TimeScale
     objs = [TimeScale()]
     passed = {}
+    expect = [None]          # the domain each object was last GIVEN (None once nice() has moved it): what it must report at the end
+    EXPECTED_DOMAINS[:] = []
     for o in ops:
         s = objs[o[1]]
+        if o[0] == "nice":
+            expect[o[1]] = None
+        elif o[0] == "copy":
+            expect.append(expect[o[1]])
         if o[0] == "domain":
+            expect[o[1]] = [o[2], o[3]]
             s.domain([to_dt(o[2]), to_dt(o[3])])
         elif o[0] in ("range", "range!"):
             lst = passed.get(o[1]) if o[0] == "range!" else None
@@ -251,6 +261,7 @@ def run_time_history(ops, m):
         d = [to_ms(x) for x in s.domain()]
         tk = s.ticks(m) if m is not None else s.ticks()
         out.append((d, list(s.range()), tk, s))
+    EXPECTED_DOMAINS[:] = expect
     return out
 
 # ------------------------------------------------------------------------------------------- C16
@@ -281,6 +292,10 @@ def body_c16(tier, seed, rep, only_prop=False, scale=1):
         except Exception as e:
             rep.prop_fail.append(("ticks() raised %s after a history: %s" % (type(e).__name__, e), {"case": meta})); continue
         for k, (d, r, tk, _s) in enumerate(res):
+            exp = EXPECTED_DOMAINS[k] if k < len(EXPECTED_DOMAINS) else None
+            if exp is not None and list(d) != list(exp):
+                rep.prop_fail.append(("after this history the scale reports the domain %s although it was given %s and only asked for ticks since (ticks are then judged against a domain nobody set)" % (d, exp), {"case": dict(meta, obj=k)}))
+                continue
             if d[0] == d[1]:
                 continue
             lines.append("tticks|%d|%d|%s|%s" % (d[0], d[1], fr(10 if m is None else m), msl(tk))); metas.append(dict(meta, obj=k, d0=d[0], d1=d[1]))
@@ -416,6 +431,9 @@ def replay_case(pid, replay):
         line = "tticks|%d|%d|%s|%s" % (m["d0"], m["d1"], fr(10 if m["m"] is None else m["m"]), msl(tk))
     elif m["kind"] == "tticks-history":
         d, r, tk, _s = run_time_history([tuple(o) for o in m["ops"]], m["m"])[m["obj"]]
+        exp = EXPECTED_DOMAINS[m["obj"]] if m["obj"] < len(EXPECTED_DOMAINS) else None
+        if exp is not None and list(d) != list(exp):
+            print("replay: the scale reports", d, "but was given", exp); print("VIOLATION property=%s replay=%s" % (pid, replay)); return 1
         line = "tticks|%d|%d|%s|%s" % (d[0], d[1], fr(10 if m["m"] is None else m["m"]), msl(tk))
     elif m["kind"] == "tscale-history":
         d, r, tk, s = run_time_history([tuple(o) for o in m["ops"]], None)[m["obj"]]
